@@ -1,5 +1,5 @@
 (* Properties/C08.v — C08: static output order: file order kept, sequences sorted, row order irrelevant. *)
-From GV Require Import Base.Prelude Base.Sort Model.Realtime Model.Static Proofs.StaticProofs.
+From GV Require Import Base.Prelude Base.Sort Model.Realtime Model.Static Proofs.StaticProofs Proofs.OrderProofs.
 From Coq Require Import Permutation Sorted.
 
 (* within a trip the stop times are in ascending stop_sequence (distinct sequences) *)
@@ -26,3 +26,14 @@ Theorem C08_sorting_erases_order : forall (A : Type) (ltb : A -> A -> bool),
   forall l l', Permutation l l' -> NoDup l -> total_on A ltb l -> isort A ltb l = isort A ltb l'.
 Proof. exact isort_perm_invariant. Qed.
 Print Assumptions C08_sorting_erases_order.
+
+(* ---- the whole file: stop_times.txt rows in ANY order (trips interleaved, sequences unsorted) give the same trips, stop
+   times included, provided no trip receives two rows with the same stop_sequence.  The hypothesis on [trips] is what
+   ParseStatic guarantees: trips come from trips.txt (and frequencies.txt) with no stop times yet. ---- *)
+Theorem C08_stop_times_rows_any_order : forall pf stops trips hdr rows rows',
+  Permutation rows rows' ->
+  Forall (fun t => tp_stop_times t = []) trips ->
+  (forall t, In t (fold_left (fun ts cells => stop_time_row pf stops ts (view hdr cells)) rows trips) -> NoDup (map st_seq (tp_stop_times t))) ->
+  parse_stop_times pf stops trips hdr rows = parse_stop_times pf stops trips hdr rows'.
+Proof. exact stop_times_rows_any_order. Qed.
+Print Assumptions C08_stop_times_rows_any_order.
